@@ -238,6 +238,7 @@ func C11(c *fw.Ctx) {
 	c.Bound("history_depth", depth)
 	c.Bound("max_array_length", maxLen)
 	c.R.Rule = "breadth-first search over histories of array operations on three variables with shared ancestry (start: a=[1,2,3], b=[], c=a); after every step all variables and their লেন are printed and compared with a pure list model; states are merged on the canonical model heap (values by rank) joined with the implementation's slice fingerprint (backing-array class, cap, len of every live slice, obtained from the values Interpret returns); error steps are leaves; distinct by program text"
+	c11WriteValues(c)
 	seen := map[string]bool{}
 	type node struct{ hist []int }
 	frontier := []node{{nil}}
@@ -251,6 +252,9 @@ func C11(c *fw.Ctx) {
 				hist := append(append([]int{}, nd.hist...), oi)
 				// subtrees are distributed over shards by start state and first operation
 				if d >= 1 && (hist[0]*len(ops)+hist[1])%c.NShards != c.Shard {
+					continue
+				}
+				if c.Expired() {
 					continue
 				}
 				prog := parenAll(arrProgram(hist, ops))
@@ -402,4 +406,65 @@ func modelCyclic(v model.Value, path map[*model.ArrV]bool) bool {
 		}
 	}
 	return false
+}
+
+// c11WriteValues: the value of an indexed write is the value stored, wherever the write stands: every
+// target x every stored-value form x every place that uses the value; judged as a script, on one line
+// and as a line of the interactive prompt.
+func c11WriteValues(c *fw.Ctx) {
+	id, num := model.Id, model.Num
+	pre := func() []*model.N {
+		return []*model.N{
+			model.Var("a", model.Arr(num(1), num(2), num(3))),
+			model.Var("b", model.Arr(num(4), num(5), num(6))),
+			model.Var("n", model.Arr(model.Arr(num(7)), model.Arr(num(8)))),
+			model.Fun("idf", []string{"x"}, model.Return(id("x"))),
+			model.Var("r", model.Nil()),
+		}
+	}
+	targets := []func(v *model.N) *model.N{
+		func(v *model.N) *model.N { return model.IAsg(id("a"), num(1), v) },
+		func(v *model.N) *model.N { return model.IAsg(id("b"), num(0), v) },
+		func(v *model.N) *model.N { return model.IAsg(model.Idx(id("n"), num(1)), num(0), v) },
+		func(v *model.N) *model.N { return model.IAsg(id("a"), model.Bin("-", model.CallN(model.BiLen, id("a")), num(1)), v) },
+	}
+	values := []func() *model.N{
+		func() *model.N { return num(50) },
+		func() *model.N { return model.Str("s") },
+		func() *model.N { return model.Grp(model.IAsg(id("b"), num(2), num(70))) },
+		func() *model.N { return id("b") },
+		func() *model.N { return model.Arr(num(9)) },
+		func() *model.N { return model.Nil() },
+	}
+	uses := []struct {
+		name string
+		mk   func(w *model.N) []*model.N
+	}{
+		{"statement", func(w *model.N) []*model.N { return []*model.N{model.ExprS(w)} }},
+		{"printed", func(w *model.N) []*model.N { return []*model.N{model.Print(model.Grp(w))} }},
+		{"assigned", func(w *model.N) []*model.N { return []*model.N{model.ExprS(model.Asg("r", w)), model.Print(id("r"))} }},
+		{"declared", func(w *model.N) []*model.N { return []*model.N{model.Var("d", w), model.Print(id("d"))} }},
+		{"stored-again", func(w *model.N) []*model.N { return []*model.N{model.ExprS(model.IAsg(id("a"), num(0), w))} }},
+		{"appended", func(w *model.N) []*model.N { return []*model.N{model.ExprS(model.Asg("r", model.CallN(model.BiAppend, id("a"), model.Grp(w)))), model.Print(id("r"))} }},
+		{"element", func(w *model.N) []*model.N { return []*model.N{model.Print(model.Arr(model.Grp(w), id("a")))} }},
+		{"argument", func(w *model.N) []*model.N { return []*model.N{model.Print(model.CallN("idf", model.Grp(w)))} }},
+		{"returned", func(w *model.N) []*model.N { return []*model.N{model.Fun("rw", nil, model.Return(w)), model.Print(model.CallN("rw"))} }},
+		{"compared", func(w *model.N) []*model.N { return []*model.N{model.Print(model.Bin("==", model.Grp(w), num(50)))} }},
+		{"property", func(w *model.N) []*model.N { return []*model.N{model.Print(model.Obj([]string{"k"}, []*model.N{model.Grp(w)}))} }},
+		{"length", func(w *model.N) []*model.N { return []*model.N{model.Print(model.CallN(model.BiLen, model.Arr(model.Grp(w))))} }},
+	}
+	for ti, t := range targets {
+		for vi, v := range values {
+			for _, u := range uses {
+				if !c.Mine() {
+					continue
+				}
+				prog := append(pre(), u.mk(t(v()))...)
+				prog = append(prog, model.Print(id("a")), model.Print(id("b")), model.Print(id("n")), model.Print(model.CallN(model.BiLen, id("a"))))
+				judge(c, prog, judgeOpts{SigPrefix: fmt.Sprintf("write-value|%s|target%d|value%d", u.name, ti, vi)})
+				c.R.States++
+				c.R.Transitions++
+			}
+		}
+	}
 }
